@@ -2,12 +2,6 @@ import RulesModel.Generated.Ops
 namespace Rules.OpsGen
 open Rules Rules.Go Rules.GenOps
 
-/-- what Go sees of an `OpRes` when the Stringer calls so far are `w` -/
-def embed (w : W) : OpRes → OM ((Bool × Option GErr) × W)
-  | .ok b c => .ok ((b, none), w ++ c)
-  | .err e c => .ok ((false, some (.op e)), w ++ c)
-  | .panic c => .error (w ++ c)
-
 /-- pure functions: no Stringer is asked -/
 def embedP : OpRes → Bool × Option GErr
   | .ok b _ => (b, none)
